@@ -1,21 +1,7 @@
 //! `check-bin C17 [--tier quick|thorough] [--seed N] [--replay FILE] [--strict]`
 //! The repository's binary crate is compiled in through #[path] (it has no library target).
 #![allow(dead_code)]
-#[path = "/repo/emulator-2a/src/args.rs"]
-mod args;
-#[path = "/repo/emulator-2a/src/error.rs"]
-mod error;
-#[path = "/repo/emulator-2a/src/helpers/mod.rs"]
-mod helpers;
-#[path = "/repo/emulator-2a/src/runner/mod.rs"]
-mod runner;
-#[path = "/repo/emulator-2a/src/tui/mod.rs"]
-mod tui;
-
-#[path = "../../harness/src/engine.rs"]
-mod engine;
-mod c17;
-
+use h2a_bin::{c17, engine};
 use engine::{Ctx, Tier};
 use std::time::Instant;
 
@@ -24,6 +10,14 @@ fn main() {
     if args.len() < 2 {
         eprintln!("usage: check-bin C17 [--tier quick|thorough] [--seed N] [--replay FILE] [--strict]");
         std::process::exit(2);
+    }
+    if args[1] == "fuzz-replay" {
+        engine::install_panic_hook();
+        let data = std::fs::read(&args[3]).expect("artifact");
+        if let Some((s, d)) = c17::fuzz_one(&data, false) {
+            println!("FINDING C17 {} {}", s, d.replace('\n', " ").chars().take(500).collect::<String>());
+        }
+        std::process::exit(0);
     }
     let id = args[1].clone();
     let mut tier = match std::env::var("VERIF_TIER").ok().as_deref() {
@@ -72,6 +66,15 @@ fn main() {
         });
     }
     let ev = match id.as_str() {
+        "C17" if ctx.replay.as_ref().map(|p| fuzz_artifact_bytes(p).is_some()).unwrap_or(false) => {
+            let bytes = fuzz_artifact_bytes(ctx.replay.as_ref().unwrap()).unwrap();
+            let mut ev = engine::Evidence::new("exploration", "replay of a fuzz artifact through the deterministic oracle");
+            ev.evaluations = 1;
+            if let Some((s, d)) = c17::fuzz_one(&bytes, false) {
+                ev.violation("fuzz", &s, d, serde_json::json!({"artifact": ctx.replay.as_ref().unwrap().display().to_string()}));
+            }
+            ev
+        }
         "C17" => match engine::catch(|| c17::run(&ctx)) {
             Ok(ev) => ev,
             Err(p) => {
@@ -91,6 +94,28 @@ fn main() {
             std::process::exit(2);
         }
     };
+    let mut ev = ev;
+    if ctx.tier == Tier::Thorough && ctx.replay.is_none() {
+        if let Some(doc) = std::fs::read_to_string("/verif/target/fuzz-stats-fz_tui.json").ok().and_then(|t| serde_json::from_str::<serde_json::Value>(&t).ok()) {
+            ev.evaluations += doc["executions"].as_u64().unwrap_or(0);
+            ev.class("fuzz:fz_tui:executions", doc["executions"].as_u64().unwrap_or(0));
+            if let Some(fs) = doc["findings"].as_array() {
+                for f in fs {
+                    ev.violation("fuzz", f["signature"].as_str().unwrap_or("fuzz"), f["detail"].as_str().unwrap_or("").to_string(), serde_json::json!({"artifact": f["artifact"]}));
+                }
+            }
+            ev.parts.push(doc);
+        }
+    }
     let code = engine::finish(&ctx, ev);
     std::process::exit(code);
+}
+
+fn fuzz_artifact_bytes(path: &std::path::Path) -> Option<Vec<u8>> {
+    let raw = std::fs::read(path).ok()?;
+    match serde_json::from_slice::<serde_json::Value>(&raw) {
+        Ok(doc) if doc["kind"] == "fuzz" => std::fs::read(doc["case"]["artifact"].as_str()?).ok(),
+        Ok(_) => None,
+        Err(_) => Some(raw),
+    }
 }
